@@ -53,9 +53,10 @@ func New[H Hash](options ...func(config *Config[H])) (*DBFT[H], error) {
 func (d *DBFT[H]) addTransaction(tx Transaction[H]) {
 	d.Transactions[tx.Hash()] = tx
 	if d.hasAllTransactions() {
-		if d.Context.WatchOnly() && d.isAntiMEVExtensionEnabled() {
-			// Watch-only nodes process PreBlocks too, so PreCommits received
-			// before the last transaction must be verified for them as well.
+		if d.isAntiMEVExtensionEnabled() {
+			// PreCommits received before the last transaction must be verified
+			// whatever happens next: watch-only nodes process PreBlocks too, and
+			// so does a node that rejects the proposed block.
 			d.verifyPreCommitPayloadsAgainstPreBlock()
 		}
 		if d.IsPrimary() || d.Context.WatchOnly() {
